@@ -121,6 +121,17 @@ def run(ctx):
     sp = ('param', byc.call_params()[0])
     table = ('attr', ('param', 'self'), 'ike_sas')
     rets = [(strip_ids(pc), strip_ids(t)) for pc, t, _ in BC.returns]
+
+    def first_of(pc, t):
+        """`return next(x for x in T if C)` is `for x in T: if C: return x` (the exhausted case is the other return)"""
+        if tq.is_call(t, 'builtins.next') and len(t[3]) == 1:
+            g = t[3][0][1]
+            if g[0] in ('list', 'tuple') and len(g[1]) == 1 and isinstance(g[1][0], tuple) and g[1][0][0] == 'each':
+                ea = g[1][0]
+                return tuple(pc) + tuple(ea[3]), ea[4]
+        return pc, t
+    rets = [first_of(pc, t) for pc, t in rets]
+    rets = [(tuple(a for a in pc if a[0][0] != 'caught'), t) for pc, t in rets]
     hit = [(pc, t) for pc, t in rets if t == ('elem', table, 0)]
     okc = len(hit) >= 1 and len(rets) == len(hit) + 1 and any(t == NONE for _, t in rets)
     if okc:
